@@ -17,13 +17,6 @@ Definition panic_sites : list (string * (N * N * N * N * N)) := [
   ("basex.encoder_Close", (0, 0, 0, 2, 0)%N);
   ("basex.encoder_Write", (0, 0, 2, 6, 0)%N);
   ("basex.filteringReader_Read", (0, 0, 1, 1, 0)%N);
-  ("basic.Keyring_GenerateSigningKey", (2, 0, 0, 2, 0)%N);
-  ("basic.PublicKey_ToKID", (0, 0, 0, 1, 0)%N);
-  ("basic.SigningPublicKey_ToKID", (0, 0, 0, 1, 0)%N);
-  ("basic.SigningPublicKey_Verify", (0, 0, 0, 1, 0)%N);
-  ("basic.SigningSecretKey_Sign", (0, 0, 0, 1, 0)%N);
-  ("basic.kidToPublicKey", (0, 0, 0, 1, 0)%N);
-  ("basic.kidToSigningPublicKey", (0, 0, 0, 1, 0)%N);
   ("saltpack.IsSaltpackArmoredPrefix", (1, 0, 6, 1, 0)%N);
   ("saltpack.IsSaltpackBinarySlice", (0, 0, 4, 1, 0)%N);
   ("saltpack.VerifyDetachedReader", (0, 0, 0, 1, 0)%N);
